@@ -127,6 +127,25 @@ def run(prop, tier, seed):
         sp = "END:%s|o=%s|e=%s" % (end, ".".join(str(ord(c)) for c in specs[k][1]), ".".join(str(ord(c)) for c in specs[k][2]))
         if end != "fuel" and not mr.startswith("END:fuel") and mr != sp and not end.startswith("err"):
             corr.append((k, lv, "IR run vs language definition", mr[:200], sp[:200]))
+    # the emitted structure alone (no rustc needed) on many more programs: block count, start block, translated label
+    # table, white-heart target, serialised stacks, dispatch bounds — against the compiler model's IR
+    sprogs = [S.scripted(rng, with_read=True) for _ in range(250 if quick else 4000)] + \
+             [G.render(G.gen_program(rng)) for _ in range(100 if quick else 2000)]
+    for lv in (1, 2):
+        ssrc = C.run_impl(["compile %d %s" % (lv, G.cps(p)) for p in sprogs])
+        sir = C.run_model(["compir 1 %d %s" % (lv, G.cps(p)) for p in sprogs])
+        for p, src, mi in zip(sprogs, ssrc, sir):
+            hist["structure-only"] += 1
+            if not src.startswith("src:") or mi == "none":
+                if src.startswith("src:") != (mi != "none"):
+                    corr.append((-1, lv, "compiles on one side only: " + p, src[:60], mi[:60]))
+                continue
+            a = ir_of_source(bytes.fromhex(src[4:]).decode("utf-8"))
+            b = ir_of_model(mi)
+            if a != b and not (a.startswith("blocks=0|") and b.startswith("blocks=0|")):
+                corr.append((-1, lv, "emitted structure of " + p, a, b))
+                if "points=" in a and a.split("points=")[1].split("|")[0] != b.split("points=")[1].split("|")[0]:
+                    hist["label-table-differs"] += 1
     distinct = set()
     fails = []
     for (k, lv), (st, msg, res) in zip(jobs, results):
@@ -157,11 +176,30 @@ def run(prop, tier, seed):
         V.violation(ident, "program %r with stdin %r compiled at level %d: %s: %s; interpreting it unoptimised gives %r"
                     % (prog, stdin, lv, kind, detail, specs[k]),
                     dict(program=prog, stdin=stdin, level=lv, kind=kind, detail=detail, spec=list(specs[k])))
+    # programs whose emitted structure deviates from the model are compiled and executed first: a behavioural
+    # difference there is a failing input for the property itself
+    if corr and not fails:
+        cand = [(lv, why.split(" of ", 1)[1]) for k, lv, why, a, b in corr if k < 0 and " of " in why][:12]
+        cspecs = [E.spec_fields(x) for x in C.run_model([E.case_line("spec", "run", 20000, p, "AB\nCD\n") for _, p in cand])]
+        csrc = C.run_impl(["compile %d %s" % (lv, G.cps(p)) for lv, p in cand])
+
+        def brun(i):
+            if not csrc[i].startswith("src:"):
+                return None
+            exe = os.path.join(d, "s%d" % i)
+            ok, msg = C.rustc_program(bytes.fromhex(csrc[i][4:]).decode("utf-8"), exe, rlib)
+            return C.run_exe(exe, b"AB\nCD\n", timeout=3) if ok else ("rustc", msg.encode(), b"")
+        for (lv, p), sp, res in zip(cand, cspecs, C.pmap(brun, range(len(cand)))):
+            if res is not None and not behaviour_ok(sp, res, lv):
+                fails.append((-1, lv, "behaviour", repr(res)[:300]))
+                V.violation("compiled:level%d:behaviour" % lv, "program %r with stdin 'AB\\nCD\\n' compiled at level %d: %r; interpreting it unoptimised gives %r"
+                            % (p, lv, res, sp), dict(program=p, stdin="AB\nCD\n", level=lv, result=repr(res), spec=list(sp)))
+                break
     if corr and not fails:
         k, lv, why, a, b = corr[0]
         V.violation("correspondence:" + prop, "compiler model/implementation correspondence no longer checks (%s, level %d) on %r: %s vs %s"
-                    % (why, lv, cases[k][1], a[:300], b[:300]),
-                    dict(correspondence="L0 compile::build_source vs L1 coq/Model/Compile.v", program=cases[k][1], level=lv, why=why,
+                    % (why, lv, cases[k][1] if k >= 0 else "", a[:300], b[:300]),
+                    dict(correspondence="L0 compile::build_source vs L1 coq/Model/Compile.v", program=cases[k][1] if k >= 0 else why, level=lv, why=why,
                          implementation=a, model=b, disagreements=len(corr)), found_input=False)
     if not pc["ok"]:
         V.violation("proof:" + prop, "proof obligations of %s do not check: %s" % (prop, "; ".join(pc["problems"])),
